@@ -1,4 +1,5 @@
 import CircBuf.Lemmas.Tie.Access
+import CircBuf.Lemmas.Tie.Remove
 import CircBuf.Props.C07
 /-!
 # C07 — element access returns the element at that logical position: the theorems of `Props/C07.lean`, restated about the *translated source*
@@ -33,5 +34,14 @@ theorem C07_nth_back_src (s : Sys) (i : Nat) (h : Inv s.buf) :
       else none), s) := by
   first
   | (rw [tie_nth_back _ s h]; exact C07_nth_back s i h)
+
+theorem C07_make_contiguous_src (s : Sys) (h : Inv s.buf) :
+    ∃ b' v, Gen.make_contiguous s = (.ok v, { s with buf := b' }) ∧ Inv b' ∧ abs b' = abs s.buf ∧
+      b'.cap = s.buf.cap ∧ b'.size = s.buf.size ∧
+      v.slots = windowSlots b'.start b'.cap b'.size ∧
+      (b'.start + b'.size ≤ b'.cap) ∧
+      (s.buf.start + s.buf.size ≤ s.buf.cap → b' = s.buf) := by
+  first
+  | (rw [tie_make_contiguous s h]; exact C07_make_contiguous s h)
 
 end CircBuf
